@@ -110,6 +110,12 @@ pub open spec fn hole_bare(child_strength: int, n: int) -> bool {
     !rule_needs(child_strength, false, n, Associativity::Both)
 }
 
+// operands of `x BETWEEN lo AND hi` and the tested expression of `x IN (..)`: BETWEEN / IN sit on the `=` level; the tested
+// expression is a left operand of that level, the bounds must bind tighter than it (and contain no bare AND)
+pub open spec fn between_in_operand_ok(c: Cls, closed_right: bool, tested: bool) -> bool {
+    level(c) > level(Cls::EqGrp) || (tested && (level(c) == level(Cls::EqGrp) || closed_right))
+}
+
 // the documented parenthesisation rule of needs_parentheses (its doc comment), over plain integers
 pub open spec fn rule_needs(child: int, is_left: bool, parent: int, assoc: Associativity) -> bool {
     !(child > parent
@@ -144,8 +150,7 @@ pub broadcast proof fn axiom_paren_text_len(t: String)
 // boolean str predicates Verus has no specification for: result unconstrained (see extract.shim_str_predicates)
 #[verifier::external_body] pub fn str_pred_starts_with<P>(s: &String, p: P) -> bool { unimplemented!() }
 #[verifier::external_body] pub fn str_pred_ends_with<P>(s: &String, p: P) -> bool { unimplemented!() }
-#[verifier::external_body] pub fn str_pred_contains<P>(s: &String, p: P) -> bool { unimplemented!() }
-#[verifier::external_body] pub fn str_pred_is_empty(s: &String) -> bool { unimplemented!() }
+
 
 #[verifier::external_body]
 pub fn clone_rq(e: &RqExpr) -> (r: RqExpr) ensures r == *e, { unimplemented!() }
@@ -158,6 +163,17 @@ pub fn null_value_expr() -> (r: Expr) ensures r is Value, { unimplemented!() }
 
 #[verifier::external_body]
 pub fn str_eq(a: &str, b: &str) -> (r: bool) ensures r == (a@ == b@), { unimplemented!() }
+#[verifier::external_body]
+pub fn string_eq(a: &String, b: &str) -> (r: bool) ensures r == (a@ == b@), { unimplemented!() }
+#[verifier::external_body]
+pub fn expr_eq(a: &RqExpr, b: &RqExpr) -> (r: bool) ensures r == (*a == *b), { unimplemented!() }
+#[verifier::external_body]
+pub fn vec_into_pair(v: Vec<RqExpr>) -> (r: (RqExpr, RqExpr)) requires v@.len() == 2, ensures r.0 == v@[0], r.1 == v@[1], { unimplemented!() }
+pub uninterp spec fn translated_list(v: Seq<RqExpr>) -> Seq<Expr>;
+#[verifier::external_body]
+pub fn translate_list(v: &Vec<RqExpr>, ctx: &mut Context) -> (r: Result<Vec<Expr>, Error>)
+    ensures r is Ok ==> r->Ok_0@ == translated_list(v@),
+{ unimplemented!() }
 
 """
 
@@ -185,6 +201,21 @@ pub open spec fn null_operand(args: Seq<RqExpr>, strength: int) -> Expr {
     let other = if is_null_lit(args[0]) { args[1] } else { args[0] };
     ast_of(operand(other, true, strength as i32, Associativity::Both))
 }
+
+// ---- BETWEEN shape: and(gte(x, lo), lte(x, hi))
+pub open spec fn is_op(e: RqExpr, name: Seq<char>) -> bool { e.kind is Operator && e.kind->Operator_name@ == name }
+pub open spec fn arg(e: RqExpr, i: int) -> RqExpr { e.kind->Operator_args@[i] }
+pub open spec fn rq_arity_ok(e: RqExpr) -> bool {
+    is_op(e, "std.and"@) ==> (e.kind->Operator_args@.len() == 2
+        && (is_op(arg(e, 0), "std.gte"@) ==> arg(e, 0).kind->Operator_args@.len() == 2)
+        && (is_op(arg(e, 1), "std.lte"@) ==> arg(e, 1).kind->Operator_args@.len() == 2))
+}
+pub open spec fn between_shape(e: RqExpr) -> bool {
+    is_op(e, "std.and"@) && is_op(arg(e, 0), "std.gte"@) && is_op(arg(e, 1), "std.lte"@) && arg(arg(e, 0), 0) == arg(arg(e, 1), 0)
+}
+pub open spec fn between_x(e: RqExpr) -> RqExpr { arg(arg(e, 0), 0) }
+pub open spec fn between_lo(e: RqExpr) -> RqExpr { arg(arg(e, 0), 1) }
+pub open spec fn between_hi(e: RqExpr) -> RqExpr { arg(arg(e, 1), 1) }
 
 pub open spec fn is_null_lit(e: RqExpr) -> bool { e.kind == rq::ExprKind::Literal(Literal::Null) }
 """
@@ -264,13 +295,6 @@ def build(X):
             r is Ok ==> r->Ok_0 == operand(expr, is_left, parent_strength, parent_associativity), // @TO1
     """)
 
-    L, labels = table_rows()
-    L2, labels2, skipped = template_rows(X)
-    L = L + L2
-    build.skipped_templates = skipped
-    # one proof fn per row, so that every failing row is reported (and can be matched against known findings) separately
-    table = "\n".join("proof fn np2_row_%d() {\n%s\n}" % (i, l) for i, l in enumerate(L)) + "\n"
-
     helpers = r"""
 // code strength of Expr-level nodes, read off the real `impl SQLExpression for Expr` through its spec twin
 pub open spec fn atom() -> Box<Expr> { Box::new(Expr::Nested(Box::new(arbitrary()))) }
@@ -331,10 +355,87 @@ proof fn reveal_strengths() {}
             (r is Ok && name@ == "std.ne"@) ==> r->Ok_0 == sql_ast::Expr::IsNotNull(Box::new(null_operand(args@, expr_strength_IsNotNull()))), // @NP5ne
     """)
 
+    # ---- construction sites that are not binary operators: BETWEEN, IN, || (std.concat on dialects without CONCAT)
+    def site_params(item, n_expected, what):
+        """(is_left, strength, associativity) argument texts of every translate_operand( call in the item, turned into spec
+        expressions (`.binding_strength()` -> `.spec_binding_strength()`; a local `strength` is replaced by its initialiser)."""
+        calls = re.findall(r"translate_operand\(\s*([^,]+?),\s*(true|false),\s*([^,]+?),\s*(Associativity::\w+),\s*ctx,?\s*\)", item.text)
+        if len(calls) != n_expected:
+            raise ExtractionError("%s: %d translate_operand call(s) found, %d expected" % (what, len(calls), n_expected))
+        out = []
+        for arg, is_left, strength, assoc in calls:
+            strength = strength.strip()
+            m = re.search(r"let\s+%s\s*=\s*([^;]+);" % re.escape(strength), item.text) if re.match(r"^[a-z_]+$", strength) else None
+            sexpr = (m.group(1) if m else strength).strip()
+            sexpr = re.sub(r"\b((?:BinaryOperator|UnaryOperator)::\w+)\.binding_strength\(\)", r"(\1).spec_binding_strength()", sexpr)
+            out.append((arg.strip(), is_left, sexpr, assoc))
+        return out
+
+    tib = X.fn(GEN_EXPR, "try_into_between")
+    bsites = site_params(tib, 3, "try_into_between")
+    tib.rewrite("R6", "Result<Option<sql_ast::Expr>>", "Result<Option<sql_ast::Expr>, Error>")
+    tib.rewrite_re("R5", r"let \[(\w+), (\w+)\]: \[_; 2\] = (\w+)\.try_into\(\)\.unwrap\(\);", r"let (\1, \2) = vec_into_pair(\3);", count=3,
+                   why="Vec -> [T; 2] conversion + unwrap: vec_into_pair requires exactly two elements")
+    tib.rewrite_re("R5", r"\b(\w+) == (\"std\.[a-z_.]+\")", r"string_eq(&\1, \2)", count=None, why="String == &str has no Verus specification")
+    tib.rewrite_re("R5", r"\b(a_l) == (b_l)\b", r"expr_eq(&\1, &\2)", count=None, why="derived PartialEq on rq::Expr = structural equality")
+    tib.ret_name("r")
+    tib.contract("""
+        requires
+            rq_arity_ok(expr),
+        ensures
+            // C02: `in lo..hi` means lo <= x AND x <= hi; BETWEEN only for exactly and(gte(x, lo), lte(x, hi)) with one x
+            (r is Ok && r->Ok_0 is Some) ==> between_shape(expr), // @NP6a
+            (r is Ok && r->Ok_0 is Some) ==> r->Ok_0->0 == (sql_ast::Expr::Between {
+                expr: Box::new(ast_of(operand(between_x(expr), %s, (%s) as i32, %s))),
+                negated: false,
+                low: Box::new(ast_of(operand(between_lo(expr), %s, (%s) as i32, %s))),
+                high: Box::new(ast_of(operand(between_hi(expr), %s, (%s) as i32, %s))),
+            }), // @NP6b
+    """ % (bsites[0][1], bsites[0][2], bsites[0][3], bsites[1][1], bsites[1][2], bsites[1][3], bsites[2][1], bsites[2][2], bsites[2][3]))
+    tib.insert_at_body_start('proof { reveal_strlit("std.and"); reveal_strlit("std.gte"); reveal_strlit("std.lte"); }', "proof hint")
+
+    pai_then, pai_else = X.if_blocks(GEN_EXPR, "process_array_in", "if in_values.is_empty()", name="array_in")
+    X.items.remove(pai_then)
+    isites = site_params(pai_else, 1, "process_array_in")
+    pai_else.rewrite_re("R5", r"in_values\s*\.iter\(\)\s*\.map\(\|a\| Ok\(translate_expr\(a\.clone\(\), ctx\)\?\.into_ast\(\)\)\)\s*\.collect::<Result<Vec<sql_ast::Expr>>>\(\)\?",
+                        "translate_list(in_values, ctx)?", count=1, why="iterator chain over the list elements (delimited positions)")
+    pai_else.rewrite("R5", "col_expr.clone()", "clone_rq(col_expr)", why="derive(Clone)")
+    pai_else.text = ("pub fn array_in_slice(col_expr: &rq::Expr, in_values: &Vec<rq::Expr>, ctx: &mut Context) -> (r: Result<sql_ast::Expr, Error>)\n"
+                     "    ensures\n"
+                     "        r is Ok ==> r->Ok_0 == (sql_ast::Expr::InList { expr: Box::new(ast_of(operand(*col_expr, %s, (%s) as i32, %s))),\n"
+                     "                                                     list: r->Ok_0->InList_list, negated: false }), // @IN1\n"
+                     "{\n    " % (isites[0][1], isites[0][2], isites[0][3]) + pai_else.text + "\n}\n")
+    pai_else.rewrites.append({"rule": "slice", "what": "else-branch of `if in_values.is_empty()` in process_array_in wrapped as fn array_in_slice"})
+
+    pc_then, pc_else = X.if_blocks(GEN_EXPR, "process_concat", "if ctx.dialect.has_concat_function()", name="concat")
+    X.items.remove(pc_then)
+    # which guard does each concat operand get?  (translate_operand with parameters, or none at all = translate_expr)
+    cs = re.findall(r"translate_operand\(\s*[^,]+?,\s*(true|false),\s*([^,]+?),\s*(Associativity::\w+),\s*ctx,?\s*\)", pc_else.text)
+    n_raw = len(re.findall(r"translate_expr\(", pc_else.text))
+    if len(cs) + n_raw != 2:
+        raise ExtractionError("process_concat: expected two operand translations in the `||` branch, found %d guarded + %d raw" % (len(cs), n_raw))
+    X.items.remove(pc_else)
+    concat_sites = []
+    for is_left, strength, assoc in cs:
+        strength = strength.strip()
+        m = re.search(r"let\s+%s\s*=\s*([^;]+);" % re.escape(strength), pc_else.text) if re.match(r"^[a-z_]+$", strength) else None
+        sexpr = (m.group(1) if m else strength).strip()
+        sexpr = re.sub(r"\b((?:BinaryOperator|UnaryOperator)::\w+)\.binding_strength\(\)", r"(\1).spec_binding_strength()", sexpr)
+        concat_sites.append((is_left, sexpr, assoc))
+    build.sites = {"between": bsites, "in": isites, "concat": concat_sites, "concat_raw": n_raw}
+
+    L, labels = table_rows()
+    L2, labels2, skipped = template_rows(X)
+    L3, labels3 = site_rows(build.sites)
+    L = L + L2 + L3
+    build.skipped_templates = skipped
+    # one proof fn per row, so that every failing row is reported (and can be matched against known findings) separately
+    table = "\n".join("proof fn np2_row_%d() {\n%s\n}" % (i, l) for i, l in enumerate(L)) + "\n"
+
     sql_mod = "pub mod sql_ast {\nuse super::*;\n" + "\n".join([binop.text, unop.text, expr.text]) + "\n}\n"
     rq_mod = "pub mod rq {\nuse super::*;\n" + rq_expr.text + "\n" + rq_kind.text + "\n}\n"
     body = "\n".join([sql_mod, rq_mod, lit.text, assoc.text, assoc_impl.text, trait.text] +
-                     [eos.text, se.text] + [i.text for i in impls] + [helpers, POSTLUDE, needs.text, eos_impl, top.text, tbo.text, pn.text, table])
+                     [eos.text, se.text] + [i.text for i in impls] + [helpers, POSTLUDE, needs.text, eos_impl, top.text, tbo.text, pn.text, tib.text, pai_else.text, table])
     return PRELUDE + body + "\n} // verus!\nfn main() {}\n"
 
 
@@ -439,14 +540,48 @@ def template_rows(X):
     return L, labels, skipped
 
 
+def site_rows(sites):
+    """Rows for the parents that are not binary operators, with the (is_left, strength, associativity) the real call sites pass."""
+    L, labels = [], []
+    for pos, (arg, is_left, sexpr, assoc) in zip(("x", "lo", "hi"), sites["between"]):
+        for (cname, cstr, ccls, cop, closed) in child_rows():
+            lab = "NP2.Between_%s.%s" % (pos, cname)
+            labels.append(lab)
+            L.append("    assert(site_ok(%s, %s, (%s) as int, %s, between_in_operand_ok(%s, %s, %s))); // @%s"
+                     % (cstr, is_left, sexpr, assoc, ccls, closed, "true" if pos == "x" else "false", lab))
+    for (arg, is_left, sexpr, assoc) in sites["in"]:
+        for (cname, cstr, ccls, cop, closed) in child_rows():
+            lab = "NP2.InList_x.%s" % cname
+            labels.append(lab)
+            L.append("    assert(site_ok(%s, %s, (%s) as int, %s, between_in_operand_ok(%s, %s, true))); // @%s"
+                     % (cstr, is_left, sexpr, assoc, ccls, closed, lab))
+    # `||`: first operand is the left end of the chain, every further operand a right operand
+    guarded = {("true" if i == 0 else "false"): c for i, c in enumerate(sites["concat"])} if len(sites["concat"]) == 2 else {}
+    for side, is_left in (("L", "true"), ("R", "false")):
+        for (cname, cstr, ccls, cop, closed) in child_rows():
+            lab = "NP2.Concat.%s.%s" % (cname, side)
+            labels.append(lab)
+            oracle = "infix_operand_ok(Cls::Concat, Some(BinaryOperator::StringConcat), %s, %s, %s, %s)" % (ccls, cop, closed, is_left)
+            if is_left in guarded:
+                _, sexpr, assoc = guarded[is_left]
+                L.append("    assert(site_ok(%s, %s, (%s) as int, %s, %s)); // @%s" % (cstr, is_left, sexpr, assoc, oracle, lab))
+            else:
+                # the operand is translated with translate_expr: it is always printed bare
+                L.append("    assert(%s); // @%s" % (oracle, lab))
+    return L, labels
+
+
 def DYNAMIC_LABELS():
     import extract
-    return template_rows(extract.Extractor())[1]
+    X = extract.Extractor()
+    build(X)
+    return template_rows(extract.Extractor())[1] + site_rows(build.sites)[1]
 
 
-LABELS = ["AS1", "AS2", "TW1", "TW2", "NP1", "WP1", "WP2", "TO1", "IA1", "TB1", "NP5eq", "NP5ne"] + table_rows()[1]
+LABELS = ["AS1", "AS2", "TW1", "TW2", "NP1", "WP1", "WP2", "TO1", "IA1", "TB1", "NP5eq", "NP5ne", "NP6a", "NP6b", "IN1"] + table_rows()[1]
 FUNCTIONS = ["needs_parentheses", "left_associative", "right_associative", "translate_operand", "wrap_in_parenthesis",
-             "into_ast", "translate_binary_operator", "process_null", "binding_strength", "associativity"]
+             "into_ast", "translate_binary_operator", "process_null", "binding_strength", "associativity",
+             "try_into_between", "array_in_slice"]
 ASSUMED = [
     {"what": "sqlparser's Expr / BinaryOperator / UnaryOperator are skeleton enums generated from the pinned sqlparser "
              "0.60.0 source (variant and field names kept, foreign payload types opaque: OpaqueT, Opaque<T>)", "count": 2},
@@ -456,8 +591,10 @@ ASSUMED = [
      "count": 3},
     {"what": "rq::Expr::clone is the identity (clone_rq)", "count": 1},
     {"what": "sqlparser Ident::new / Value::Null.into() are external (ident_expr / ast_of_source, null_value_expr)", "count": 3},
-    {"what": "&str == &str compares character sequences (str_eq)", "count": 1},
-    {"what": "boolean str predicates (starts_with, ends_with, contains, is_empty) return an unconstrained bool", "count": 4},
+    {"what": "&str == &str / String == &str compare character sequences (str_eq, string_eq); derived PartialEq on rq::Expr is structural (expr_eq)", "count": 3},
+    {"what": "Vec<rq::Expr> -> [_; 2] conversion (vec_into_pair, requires two elements); the IN list elements are translated by translate_list "
+             "(delimited positions, uninterpreted)", "count": 3},
+    {"what": "boolean str predicates (starts_with, ends_with) return an unconstrained bool", "count": 2},
 ]
 TRUSTED = [
     "oracle: SQLite's documented operator precedence table; all binary levels left-associative",
